@@ -38,6 +38,22 @@ func (v *Vue) evaluate(ctx VueContext, nodes []*html.Node, depth int) ([]*html.N
 		case html.ElementNode:
 			tag := node.Data
 
+			// v-for comes first: it instantiates the element once per item, and every instance
+			// comes back here (without v-for) to be tested against the v-once record on its own.
+			// Testing the looping element itself would record its id, and every instance - the
+			// first one included - would then be skipped. v-pre switches v-for off like every
+			// other directive.
+			isPre := helpers.HasAttr(node, "v-pre")
+			if !isPre && helpers.HasAttr(node, "v-for") {
+				chainResult, skipCount, err := v.evalVFor(ctx, node, nodes[i:], depth)
+				if err != nil {
+					return nil, err
+				}
+				result = append(result, chainResult...)
+				i += skipCount
+				continue
+			}
+
 			// Check for v-once early - skip if already rendered
 			if helpers.HasAttr(node, "v-once") {
 				vSeenID := helpers.GetAttr(node, "v-once-id")
@@ -50,7 +66,7 @@ func (v *Vue) evaluate(ctx VueContext, nodes []*html.Node, depth int) ([]*html.N
 			}
 
 			// Check for v-pre early - prevents all interpolation and directive processing
-			if helpers.HasAttr(node, "v-pre") {
+			if isPre {
 				newNode := helpers.ShallowCloneWithAttrs(node)
 				// Deep clone children without processing them (v-pre will be filtered during rendering)
 				var prev *html.Node
@@ -65,16 +81,6 @@ func (v *Vue) evaluate(ctx VueContext, nodes []*html.Node, depth int) ([]*html.N
 					prev = cloned
 				}
 				result = append(result, newNode)
-				continue
-			}
-
-			if helpers.HasAttr(node, "v-for") {
-				chainResult, skipCount, err := v.evalVFor(ctx, node, nodes[i:], depth)
-				if err != nil {
-					return nil, err
-				}
-				result = append(result, chainResult...)
-				i += skipCount
 				continue
 			}
 
